@@ -166,6 +166,14 @@ func TestC01(t *testing.T) {
 		return pre + vlib.GenTokenSoup(t, 14)
 	}, c01Single)
 
+	vlib.Enum(h, "long-lines-exhaustive", true, func(yield func(string) bool) {
+		vlib.EachLongLine(h.Mine, yield)
+	}, func(src string, info *vlib.Info) *vlib.Failure {
+		f := c01Single(src, info)
+		info.Class("long-line")
+		return f
+	})
+	vlib.Rapid(h, "schema-rule-soup", h.N(20000, 1000000), vlib.GenRuleSoup, c01Single)
 	vlib.Rapid(h, "fixture-mutation", h.N(20000, 1500000), vlib.GenMutation, c01Single)
 
 	vlib.Rapid(h, "include-projects", h.N(4000, 200000), vlib.GenIncludeProject, func(p vlib.Project, info *vlib.Info) *vlib.Failure {
